@@ -124,6 +124,44 @@ def judge_session(expect, res):
     return None
 
 
+# the snapshots handed to inline_snapshot.testing.Example are ordinary snapshots of the CALLING test: an empty or wrong one has to fail it,
+# whatever flags the example itself is run with
+EXAMPLE_SRC = '''from inline_snapshot import snapshot
+from inline_snapshot.testing import Example
+
+example = Example(
+    """\\
+from inline_snapshot import snapshot
+
+def test_a():
+    assert 1 + 1 == snapshot(3)
+"""
+)
+
+
+def test_missing_changed_files():
+    example.run_inline(["--inline-snapshot=fix"], changed_files=snapshot())
+
+
+def test_missing_categories():
+    example.run_inline(["--inline-snapshot=update"], reported_categories=snapshot())
+
+
+def test_wrong_changed_files():
+    example.run_inline(["--inline-snapshot=fix"], changed_files=snapshot({"test_something.py": "outdated"}))
+
+
+def test_wrong_categories_create():
+    example.run_inline(["--inline-snapshot=create"], reported_categories=snapshot(["trim"]))
+
+
+def test_correct():
+    example.run_inline(["--inline-snapshot=fix"], reported_categories=snapshot(["fix"]))
+'''
+EXAMPLE_EXPECT = {"test_missing_changed_files": "bad", "test_missing_categories": "bad", "test_wrong_changed_files": "bad", "test_wrong_categories_create": "bad",
+                  "test_correct": "good"}
+
+
 def run(ctx: Ctx):
     ctx.coverage["rule"] = (
         "A: single-site scripts x flag subsets through the real code in-process: counters at the end of the test vs Model/SnapOps.v, and vs the statement "
@@ -161,6 +199,8 @@ def run(ctx: Ctx):
     for _ in range(m):
         src, expect = gen_project(ctx.rng)
         items.append((src, expect, gen_config(ctx.rng)))
+    for fl in ([], ["fix"], ["create", "fix", "trim", "update"], ["report"]):
+        items.append((EXAMPLE_SRC, EXAMPLE_EXPECT, {"flags": fl, "mode": "example", "args": [f"--inline-snapshot={','.join(fl)}"] if fl else [], "stdin": b""}))
     results = tmap(run_session, items)
     for (src, expect, conf), res in zip(items, results):
         ctx.count(("session", src, tuple(conf["flags"])), len(expect) >= 2 or src.count("snapshot(") >= 3)
